@@ -23,6 +23,13 @@ var (
 	T4 = time.Date(2019, 1, 1, 0, 0, 0, 0, time.UTC)
 )
 
+// TFarFuture / TFarPast lie outside the range of int64 nanoseconds since 1970
+// (1677-09-21 .. 2262-04-11) but are perfectly good time.Time values.
+var (
+	TFarFuture = time.Date(2300, 1, 1, 0, 0, 0, 0, time.UTC)
+	TFarPast   = time.Date(1600, 1, 1, 0, 0, 0, 0, time.UTC)
+)
+
 // Times lists the vocabulary instants.
 var Times = []time.Time{T1, T2, T3}
 
@@ -115,6 +122,9 @@ func Universe(rng *rand.Rand, n int) []*triple.Triple {
 			p = MustTemp(id, T2)
 		default:
 			p = MustTemp(id, T3)
+		}
+		if rng.Intn(12) == 0 {
+			p = MustTemp(id, []time.Time{TFarFuture, TFarPast}[rng.Intn(2)])
 		}
 		t := MustTriple(ns[rng.Intn(len(ns))], p, objs[rng.Intn(len(objs))])
 		k := t.String()
